@@ -1108,3 +1108,42 @@ func everyElementWrittenRule(p *engine.Prog, r *engine.Report, rule, pkg, fn, ca
 	}
 	r.Check(ok, rule, fn+"|every element is written", p.InstrPos(c), "no iteration bypasses "+callee, bad)
 }
+
+// signChecksCompleteRule: ValidateTx refuses a negative value in every big.Int field of the
+// transaction (Amount, Tips, MaxFee …): the wire encoding drops the sign, so a negative value admitted
+// on the node that holds the object in memory is applied with another value by everyone who decoded it.
+func signChecksCompleteRule(p *engine.Prog, r *engine.Report, rule string) {
+	f := mustFunc(p, r, "blockchain/validation", "ValidateTx")
+	if f == nil {
+		return
+	}
+	pk := p.ByPath[engine.RepoMod+"/blockchain/types"]
+	if pk == nil {
+		r.Und(rule, "ValidateTx|sign checks", "", "types package not loaded")
+		return
+	}
+	st, _ := pk.Types.Scope().Lookup("Transaction").Type().Underlying().(*types.Struct)
+	checked := map[string]bool{}
+	for _, c := range engine.Calls(f) {
+		if !engine.CallNameIs(c, "checkIfNonNegative") {
+			continue
+		}
+		for _, a := range engine.CallArgs(c) {
+			if _, fld, ok := engine.FieldOf(engine.Origin(a)); ok {
+				checked[fld] = true
+			}
+		}
+	}
+	n := 0
+	for i := 0; st != nil && i < st.NumFields(); i++ {
+		fl := st.Field(i)
+		if fl.Type().String() != "*math/big.Int" {
+			continue
+		}
+		n++
+		r.Check(checked[fl.Name()], rule, "ValidateTx|a negative "+fl.Name()+" is refused", p.Pos(f.Pos()), "checkIfNonNegative(tx."+fl.Name()+")", "ValidateTx does not refuse a negative "+fl.Name()+" (e.g. another field is checked twice): the proposer applies the in-memory value, every peer decodes the sign-less bytes and computes other roots — the honest proposer's block is refused by everyone else")
+	}
+	if n == 0 {
+		r.Und(rule, "ValidateTx|sign checks", p.Pos(f.Pos()), "no big.Int field found in Transaction")
+	}
+}
